@@ -14,3 +14,30 @@ Theorem C16_history_independent fs st h o :
   snd (step fs (final_state fs st h) o) = snd (step fs st o).
 Proof. exact (history_independent fs st h o). Qed.
 Print Assumptions C16_history_independent.
+
+(* the same on the code's own call graph (tables regenerated from /repo's source every run):
+   evaluation assigns no field of a parsed program, and the only functions reachable from a
+   rendering entry point that assign ast fields are the parser's (they build the fresh tree of the
+   source handed to EvaluateString / the built-in error page) *)
+From Coq Require Import String List NArith.
+From TW Require Import GenFootprint Footprint.
+Import ListNotations.
+Local Open Scope string_scope.
+
+Theorem C16_evaluation_assigns_no_program_field :
+  collect fp_astw ["evaluator.Evaluator.Eval"; "object.EnvFromMap"; "textwire.getTemplatePath"] = [].
+Proof. exact evaluation_assigns_no_ast_field. Qed.
+Print Assumptions C16_evaluation_assigns_no_program_field.
+
+Theorem C16_render_paths_assign_no_package_state : collect fp_writes render_entries = [].
+Proof. exact render_paths_assign_nothing. Qed.
+Print Assumptions C16_render_paths_assign_no_package_state.
+
+Theorem C16_package_state_is_the_reviewed_list :
+  pkg_vars =
+  ["evaluator.BREAK"; "evaluator.CONTINUE"; "evaluator.FALSE"; "evaluator.NIL"; "evaluator.TRUE"; "evaluator.functions";
+   "lexer.simpleTokens"; "lexer.tokensWithOptionalParens"; "lexer.tokensWithoutParens"; "object.outputHTML";
+   "parser.precedences"; "textwire.customFunc"; "textwire.defaultErrorPage"; "textwire.userConfig";
+   "textwire.usesTemplates"; "token.directives"; "token.keywords"; "token.tokens"].
+Proof. exact pkg_vars_reviewed. Qed.
+Print Assumptions C16_package_state_is_the_reviewed_list.
